@@ -30,7 +30,7 @@ LEVEL_NOTE = ("Trusted: Coq kernel, translator (file-name and version constants)
               "file operations (only their effect on the directory matters to the manifest and prune code); the store process is the only manifest "
               "writer (PruneTableFiles and the conjoin cleanup protect only files open in their own process).")
 THEOREMS = ["manifest_codec", "manifest_codec_exact", "write_manifest_none", "inv_reachable", "inv_step", "update_atomic",
-            "update_atomic_reachable", "failed_update_changes_nothing", "oracle_on_model_codec", "consts_pinned"]
+            "update_atomic_reachable", "failed_update_changes_nothing", "no_live_unlink", "no_live_unlink_candidate", "oracle_on_model", "consts_pinned"]
 RULE = ("three kinds of cases: (w) random manifest contents through writeManifest then parseManifest; (p) serialised manifests mutated by byte edits, "
         "field edits, truncation, version changes through parseManifest; (t) nested schedules (table landings, updates with stale/fresh lock and a "
         "write hook containing further steps, GC-generation updates, grace prunes with explicit clocks whose after-snapshot and under-lock hooks "
@@ -40,7 +40,8 @@ ASSUMPTIONS = ["format-version strings contain no ':'",
                "file mtimes are set by the harness in whole seconds relative to a fixed base; the LOCK file is aged to the base time and every probe time is at least one grace period after the base"]
 REQUIRED_TAGS = ["write-ok", "write-reject", "parse-ok", "parse-corrupt", "parse-badcount", "parse-badname", "parse-badlock", "parse-badroot", "parse-v4",
                  "parse-eof", "parse-version", "upd-swap", "upd-mismatch", "upd-missing", "upd-gcgen", "upd-busy", "upd-abort", "prune-notquiet",
-                 "prune-unlinked", "prune-kept", "prune-busy", "prune-mchanged", "prune-changed", "gc-update"]
+                 "prune-unlinked", "prune-kept", "prune-busy", "prune-mchanged", "prune-changed", "gc-update",
+                 "conj-applies", "conj-cannot-apply", "conjoin", "shrink-missing", "nbs-real-prune", "nbs-published-after-open", "nbs-upstream-only-table"]
 
 B32 = "0123456789abcdefghijklmnopqrstuv"
 ZERO = "0" * 32
@@ -200,6 +201,22 @@ class TGen:
                 self.cur = new       # believed (a pruned table makes it fail; harmless)
         return op
 
+    def op_conjoin(self):
+        """conjoin some of the tables of the manifest the store believes in into a landed table"""
+        rng = self.rng
+        up = self.cur if (self.cur and rng.random() < 0.85) else {"vers": list(b"5"), "nbf": self.nbf, "lock": rng.choice(self.locks), "root": ZERO,
+                                                                  "gcgen": ZERO, "specs": [], "appendix": []}
+        up = dict(up); up["appendix"] = []
+        names = sorted(set(h for h, _ in self.landed))
+        if not up["specs"] or not names:
+            return self.op_tmpt()
+        k = rng.randrange(1, len(up["specs"]) + 1)
+        cj = [dict(s) for s in rng.sample(up["specs"], k)]
+        op = {"op": "conjoin", "up": up, "cj": cj, "c": {"name": rng.choice(names), "count": 9}, "id": self.next_mtmp, "mt": self.tick(), "hook": []}
+        self.next_mtmp += 3
+        self.cur = None if rng.random() < 0.5 else self.cur     # the generator no longer knows the lock on disk
+        return op
+
     def op_prune(self, allow_nested):
         rng = self.rng
         self.temps = []      # temp table files older than the scan may be reclaimed: never land them afterwards
@@ -247,8 +264,10 @@ class TGen:
                 ops.append(self.op_tmpt())
             elif c < 0.47:
                 ops.append(self.op_land())
-            elif c < 0.72:
+            elif c < 0.66:
                 ops.append(self.op_update(True))
+            elif c < 0.72:
+                ops.append(self.op_conjoin())
             elif c < 0.92:
                 ops.append(self.op_prune(True))
             elif c < 0.96:
@@ -258,19 +277,102 @@ class TGen:
         return {"kind": "trace", "ops": ops}
 
 
+
+def gen_conj(rng):
+    """conjoinOperation.updateManifest's proposal: upstream specs, a subset (or not) as conjoinees, the conjoined table."""
+    n = rng.choice([1, 2, 3, 4, 6])
+    specs = [{"name": rhash(rng), "count": rng.choice(COUNTS)} for _ in range(n)]
+    up = {"vers": list(b"5"), "nbf": list(b"__DOLT__"), "lock": rhash(rng), "root": rhash(rng), "gcgen": rng.choice([ZERO, rhash(rng)]),
+          "specs": specs, "appendix": []}
+    k = rng.randrange(1, n + 1)
+    cj = [dict(s) for s in rng.sample(specs, k)]
+    if rng.random() < 0.25:
+        cj.append({"name": rhash(rng), "count": 1})        # a conjoinee that is gone: cannot apply
+    return {"kind": "conj", "up": up, "cj": cj, "c": {"name": rhash(rng), "count": sum(s["count"] for s in cj) % (1 << 32)}}
+
+
+def nbs_scenarios(rng, n):
+    """Two real NomsBlockStore handles on one directory: B commits (lands a table file, publishes it), A — opened earlier and
+    not rebased — runs the real PruneUnreferencedWithGrace.  Garbage = table-named files nobody publishes."""
+    out = []
+    for _ in range(n):
+        ops, t, tid, mid, x = [], 100, 1, 1, 1
+        def commit():
+            nonlocal t, tid, mid, x
+            t += 5
+            ops.append({"op": "b_commit", "x": x, "root_change": rng.random() < 0.5, "mt": t, "id": tid, "mid": mid})
+            tid += 3; mid += 1; x += 1
+        def garbage():
+            nonlocal t, tid
+            t += 1
+            ops.append({"op": "tmpt", "id": tid, "mt": t, "sz": rng.choice([0, 7, 40])})
+            if rng.random() < 0.8:
+                ops.append({"op": "land", "id": tid, "h": rhash(rng), "arch": rng.random() < 0.3})
+            tid += 1
+        for _ in range(rng.choice([1, 1, 2])):
+            commit()
+        for _ in range(rng.choice([0, 1])):
+            garbage()
+        ops.append({"op": "a_open"})
+        for _ in range(rng.choice([0, 1, 1, 2])):
+            commit()
+        for _ in range(rng.choice([0, 1, 2])):
+            garbage()
+        k = rng.random()
+        if k < 0.25:
+            t += 1
+            ops.append({"op": "drop_first_spec", "h": rhash(rng), "id": 900 + mid, "mt": t})   # a table only A's upstream still needs
+        elif k < 0.4:
+            ops.append({"op": "a_rebase"})
+        if rng.random() < 0.15:
+            ops.append({"op": "fresh", "id": 7})
+        ops.append({"op": "a_prune", "grace": rng.choice([60, 600, 3600])})
+        if rng.random() < 0.4:
+            commit()
+            ops.append({"op": "a_prune", "grace": 600})
+        out.append({"kind": "trace", "ops": ops, "nbs": True})
+    return out
+
+
 def gen_cases(rng, tier):
     nw, np_, nt = (120, 320, 170) if tier == "quick" else (4000, 20000, 6000)
     cases = []
     for i in range(nw):
         cases.append({"kind": "write", "m": gen_manifest(rng, wf=(rng.random() < 0.8))})
-    fixed = [b"", b"5", b"5:", b"4:", b"5:a:b:c", b"5:a:b:c:d", b"4:a:b", b"4:a:b:c", b"12345678:", b"1234567:", b"6:x"]
+    zr = ZERO.encode()
+    fixed = [b"5:__DOLT__:" + zr[:31] + b"1:" + b"w" * 32 + b":" + zr,          # malformed root: an error, not a panic (fix d54718b)
+             b"4:__DOLT__:" + zr[:31] + b"1:" + zr[:31],
+             b"5:__DOLT__:" + zr[:31] + b"1::" + zr,
+             b"", b"5", b"5:", b"4:", b"5:a:b:c", b"5:a:b:c:d", b"4:a:b", b"4:a:b:c", b"12345678:", b"1234567:", b"6:x"]
     cases += [{"kind": "parse", "text": list(t)} for t in fixed]
     for i in range(np_):
         cases.append(gen_parse(rng))
     cases += fixed_traces(rng)
     for i in range(nt):
         cases.append(TGen(rng).gen())
+    cases += nbs_scenarios(rng, 40 if tier == "quick" else 1500)
+    for i in range(60 if tier == "quick" else 3000):
+        cases.append(gen_conj(rng))
     return cases
+
+
+HARNESS_TIMEOUT = 1800
+
+
+def run_impl(ctx, binary, cases):
+    """The 100 ms flock timeout of fileManifest can fire under load although nobody holds the LOCK; the harness reports that
+    as an error (it knows when one of its own actors holds it) and the case is simply run again."""
+    outs = vlib.run_harness(binary, HARNESS_RUNNER, cases, timeout=HARNESS_TIMEOUT)
+    retried = 0
+    for i, o in enumerate(outs):
+        tries = 0
+        while "spurious-lock-timeout" in (outs[i].get("err") or "") and tries < 5:
+            tries += 1
+            retried += 1
+            outs[i] = vlib.run_harness(binary, HARNESS_RUNNER, [cases[i]], timeout=300)[0]
+    if retried:
+        ctx.log("re-ran %d case(s) after a spurious manifest lock timeout" % retried)
+    return outs
 
 
 def fixed_traces(rng):
@@ -303,6 +405,31 @@ def fixed_traces(rng):
     out.append(land2 + [upd(1, ZERO, man(lk1, [h1]), 410, hook=[{"op": "prune", "grace": 50, "probe": 1000, "extra": [], "after": [], "under": []}]),
                         {"op": "prune", "grace": 50, "probe": 1000, "extra": [], "after": [],
                          "under": [upd(2, lk1, man(lk2, [h1]), 1001)]}])
+    # shrinking updates whose new file was reclaimed between landing and publish: rejected under the LOCK
+    h3 = rhash(rng)
+    land3 = land2 + [{"op": "tmpt", "id": 5, "mt": 402, "sz": 9}, {"op": "land", "id": 5, "h": h3, "arch": False}]
+    m12 = man(lk1, [h1, h2])
+    prune_all = {"op": "prune", "grace": 50, "probe": 1000, "extra": [], "after": [], "under": []}
+    conj = lambda up, hook=None: {"op": "conjoin", "up": up, "cj": [{"name": h1, "count": 2}, {"name": h2, "count": 2}], "c": {"name": h3, "count": 4},
+                                  "id": 20, "mt": 1011, "hook": hook or []}
+    #   conjoin 2 -> 1, conjoined file pruned before the manifest update
+    out.append(land3 + [upd(1, ZERO, m12, 410), prune_all, conj(m12)])
+    #   conjoin 2 -> 1, file present: lands
+    out.append(land3 + [upd(1, ZERO, m12, 410), conj(m12)])
+    #   conjoin against a stale upstream: first proposal bounces, second is built on what is on disk
+    m12b = man(lk2, [h2, h1])
+    out.append(land3 + [upd(1, ZERO, m12, 410), upd(2, lk1, m12b, 411), conj(m12)])
+    #   conjoinee already gone from the manifest: nothing is proposed
+    out.append(land3 + [upd(1, ZERO, man(lk1, [h1]), 410), conj(m12)])
+    #   GC swap to fewer files (UpdateGCGen), new file pruned between landing and publish
+    gcm = dict(man(lk2, [h3], gcgen=lk2))
+    out.append(land3 + [upd(1, ZERO, m12, 410), prune_all,
+                        {"op": "update", "gc": True, "last": lk1, "new": gcm, "id": 2, "mt": 1012, "abort": False, "hook": []}])
+    #   GC swap to fewer files, file present
+    out.append(land3 + [upd(1, ZERO, m12, 410),
+                        {"op": "update", "gc": True, "last": lk1, "new": gcm, "id": 2, "mt": 1012, "abort": False, "hook": []}])
+    #   pruner takes the LOCK inside the conjoin's write hook: busy; and the conjoined file is then still there
+    out.append(land3 + [upd(1, ZERO, m12, 410), conj(m12, hook=[prune_all])])
     return [{"kind": "trace", "ops": ops} for ops in out]
 
 
@@ -320,7 +447,7 @@ def cq_manifest(m):
 
 
 PCLASS = {"eof": "PErrEOF", "corrupt": "PCorrupt", "version": "PUnknownVersion", "specname": "PBadSpecName", "count": "PBadCount",
-          "lock": "PBadLock", "gcgenhash": "PBadGcGen", "panic": "PPanic", "root": "PPanic"}
+          "lock": "PBadLock", "gcgenhash": "PBadGcGen", "root": "PBadRoot"}
 
 
 def cq_presult(p):
@@ -397,6 +524,10 @@ def coq_case(case, out):
         if o["parse"]["class"] != "ok" and o["parse"]["class"] not in PCLASS:
             return bad
         return "(IParse %s, OParse %s)" % (cq_bytes(case["text"]), cq_presult(o["parse"]))
+    if case["kind"] == "conj":
+        cj = o["conj"]
+        return "(IConj %s %s %s, OConj %s)" % (cq_manifest(case["up"]), cq_list(hdig(x["name"]) for x in case["cj"]), cq_spec(case["c"]),
+                                                ("(Some %s)" % cq_list(cq_spec(x) for x in cj["specs"])) if cj["applied"] else "None")
     tr = o.get("trace") or []
     steps = cq_list(cq_step(e["s"]) for e in tr)
     res = cq_list("(%d, %d, %s, %s)" % (e["code"] if e["code"] >= 0 else 95, e["aux"], hdig(e["lock"]) if e["lock"] else "[]", cq_snap(e["snap"])) for e in tr)
@@ -415,12 +546,39 @@ def classify(case, out):
     elif case["kind"] == "parse":
         c = o["parse"]["class"]
         t.append({"ok": "parse-ok", "corrupt": "parse-corrupt", "count": "parse-badcount", "specname": "parse-badname", "lock": "parse-badlock",
-                  "gcgenhash": "parse-badgcgen", "panic": "parse-badroot", "root": "parse-badroot", "eof": "parse-eof", "version": "parse-version"}.get(c, "parse-other"))
+                  "gcgenhash": "parse-badgcgen", "root": "parse-badroot", "eof": "parse-eof", "version": "parse-version"}.get(c, "parse-other"))
         if c == "ok" and bytes(o["parse"]["m"]["vers"]) == b"4":
             t.append("parse-v4")
+    elif case["kind"] == "conj":
+        t.append("conj-applies" if o["conj"]["applied"] else "conj-cannot-apply")
     else:
         tr = o.get("trace") or []
         pend_gc = False
+        if case.get("nbs"):
+            t.append("nbs-real-prune")
+            pl = [e for e in tr if e["s"]["k"] == "PLock" and e["code"] == 0]
+            for e in pl:
+                man = None
+                for f in tr[:tr.index(e)]:
+                    if f["s"]["k"] == "UFinish" and f["snap"] and f["snap"]["has"]:
+                        man = f
+                # the keep set needed the re-read under the LOCK: a published table A's upstream does not have
+                if man is not None:
+                    pass
+            ex = set(x for e in pl for x in e["s"]["extra"])
+            pub = set()
+            for e in tr:
+                if e["s"]["k"] == "ULock":
+                    pub = set(sp["name"] for sp in e["s"]["new"]["specs"])
+            if pl and (pub - ex):
+                t.append("nbs-published-after-open")
+            if pl and (ex - pub):
+                t.append("nbs-upstream-only-table")
+        if any(op["op"] == "conjoin" for op in case["ops"]):
+            t.append("conjoin")
+            fin = [e for e in tr if e["s"]["k"] == "UFinish"]
+            if any(e["code"] == 3 for e in fin):
+                t.append("shrink-missing")
         for i, e in enumerate(tr):
             k, code = e["s"]["k"], e["code"]
             if k == "ULock":
@@ -463,6 +621,8 @@ def classify(case, out):
 def nontrivial(case, out):
     if case["kind"] != "trace":
         return True
+    if case.get("nbs"):
+        return True
     return any(op["op"] in ("update", "prune") for op in case["ops"])
 
 
@@ -470,18 +630,21 @@ def shrink_candidates(case):
     if case["kind"] == "trace":
         ops = case["ops"]
         for i in range(len(ops)):
-            yield {"kind": "trace", "ops": ops[:i] + ops[i + 1:]}
+            yield dict(case, ops=ops[:i] + ops[i + 1:])
         for i, op in enumerate(ops):
             for key in ("hook", "after", "under"):
                 if op.get(key):
                     for j in range(len(op[key])):
                         o2 = dict(op)
                         o2[key] = op[key][:j] + op[key][j + 1:]
-                        yield {"kind": "trace", "ops": ops[:i] + [o2] + ops[i + 1:]}
+                        yield dict(case, ops=ops[:i] + [o2] + ops[i + 1:])
     elif case["kind"] == "parse":
         t = case["text"]
         for i in range(len(t)):
             yield {"kind": "parse", "text": t[:i] + t[i + 1:]}
+    elif case["kind"] == "conj":
+        for i in range(len(case["cj"])):
+            yield dict(case, cj=case["cj"][:i] + case["cj"][i + 1:])
     else:
         m = case["m"]
         for key in ("specs", "appendix"):
